@@ -382,6 +382,12 @@ def _index_stability(ctx):
         key = "%s:%s" % (b.path.split("broker::", 1)[-1], op)
         guards = _guard_sites(F, b)
         if not guards:
+            from ..inline import inlined
+            b2 = inlined(F, b)
+            if b2 is not None and _guard_sites(F, b2):
+                b = b2
+                guards = _guard_sites(F, b)
+        if not guards:
             ctx.violation("C01.D5", key, site(b, bb), "chunks.%s shifts chunk positions and %s has no migration-running test: migration metas would name other chunks" % (op, b.path))
             continue
 
